@@ -51,6 +51,10 @@ def cells(tier):
     for new in [1, 2]:
         sc = scen(pool("inf"), [[M("M", 3, 2)], [["set_size", new]], [GAC], [UNTIL]], outcomes=["ret"], ecb="slow", ccb="plain", slow_ids=[0])
         out.append(cell(f"sinf->{new} M3/2 slowecb0|resize|gac until", sc, MON))
+    # two overlapping gather_and_close() calls: each returns only when everything has finished
+    for size in [2, "inf"]:
+        sc = scen(pool(size), [[A("A", 2)], [GAC], [GAC], [UNTIL]], outcomes=["ret"], ecb="plain", ccb="plain")
+        out.append(cell(f"s{size} A2|gac|gac|until (overlapping closes)", sc, MON))
     # cancellations with the optional msg argument (also of tasks that have not had their first step) before the close
     for size in [1, 2]:
         sc = scen(pool(size), [[A("A", 2)], [["cancel", rid("A", 1), {"msg": "why"}]], [GAC], [UNTIL]], outcomes=["ret"], ecb="plain", ccb="plain")
